@@ -7,10 +7,14 @@ CFG = {
                               "reader_stops_at_close", "close_only_counterpart", "eos_only_after_close",
                               "permits_conserved", "buffered_bounded", "permits_return_when_consumed", "open_streams_le_min", "halves_held_once",
                               "sender_wire_wellformed", "sender_session_bytes", "sender_frames_bounded",
+                              "writer_channel_fifo", "acked_data_delivered_or_error", "cancel_is_safe",
                               "scheduler_stays_reachable"],
         "technique": "Lean 4: labelled transition system of one Mux instance (Model/Mux.lean, events = code between two awaits), "
                      "inductive invariants over all event sequences; header layout over constants regenerated from header.rs; "
-                     "differential run of the real Mux (hook verif::mux) against the model, harness plays the peer at wire level",
+                     "the write path is modelled down to the bounded(1) channel write_send, the writer task and a transport with "
+                     "back-pressure, with a cancellation event at the await of write_all / flush (ghost call history); "
+                     "differential run of the real Mux (hook verif::mux) against the model, harness plays the peer at wire level "
+                     "(incl. a peer that stops taking bytes) or connects two real Mux instances by a bounded pipe",
         "level_text": "Proof, for every reachable state of the LTS (any number of streams, any interleaving of peer frames, "
                       "internal steps and application calls, any peer): stream ids are partitioned by capability with "
                       "min(local, peer) ids each and fit the 13-bit field after verify (no panic in setup; the stream-kind "
@@ -22,7 +26,19 @@ CFG = {
                       "buffered bytes <= read_buffer_size for any sender; at most min(local, peer) transient streams per "
                       "capability are held, each half by one slot (lock hand-over); per stream the wire output is "
                       "CLOSE*(OPEN DATA* CLOSE)*, DATA frames are non-empty and <= write_frame_size, and the bytes sent before "
-                      "CLOSE are the bytes written. PARTIAL: (1) the tokio primitives (Semaphore, Notify, bounded/unbounded "
+                      "CLOSE are the bytes written. Write path under back-pressure and per-call cancellation (the only await of "
+                      "write_all / flush is the reservation of the one slot of the channel write_send inside send_data, before "
+                      "the buffer is moved into the frame): writer_channel_fifo - transport ++ frame held by the writer task ++ "
+                      "frame in the slot = the frames whose send/reserve completed, in order; acked_data_delivered_or_error - in "
+                      "every reachable state with the mux alive, per stream, the session payload on the transport or in flight "
+                      "followed by the write buffer = concat over the finished write_all calls of (all data if Ok | the copied "
+                      "prefix if cancelled) followed by what the call in flight has copied; a cancelled call has taken a proper "
+                      "prefix with fill0 + took = (j+1)*write_frame_size (it stopped at a send_data with a full buffer, which is "
+                      "kept); in phase closing everything accepted is ahead of the CLOSE; cancel_is_safe - cancelling the "
+                      "write_all / flush in flight in any reachable state changes nothing sent, in flight or buffered on any "
+                      "stream, leaves the stream held with no call in flight (any further write_all / flush is accepted), and in "
+                      "every later state of the same transient stream the payload on the wire plus the buffer still starts with "
+                      "everything accepted before the cancellation. PARTIAL: (1) the tokio primitives (Semaphore, Notify, bounded/unbounded "
                       "channel, Mutex fairness, oneshot) are assumed to behave as written at the top of Model/Mux.lean; "
                       "(2) the end-to-end composition 'bytes read on A = bytes written on B, session by session' is not a "
                       "theorem: it is the conjunction of the sender theorems on B, dispatch_faithful/dispatch_isolation/"
@@ -37,8 +53,14 @@ CFG = {
         "rule": "sessions (first op init/reset): directed families always run - config/handshake boundaries (8), more streams "
                 "than agreed / unknown ids / both kind bits (12), reuse of one reusable stream with early drops and lock "
                 "hand-over (6), transport EOF (1), never-reading application with a sender ignoring flow control (10) - "
-                "then N random sessions: 40% cooperative raw peer, 20% raw peer with unsolicited frames, 10% flood, 10% reuse, "
-                "20% two real Mux instances back to back with tagged byte streams. Each op is followed by run-to-quiescence "
+                "write-path back-pressure against the raw peer (16: the peer stops taking bytes (op win), cwrite / cflush = "
+                "write_all / flush under a context of their own which the harness cancels when the call is still suspended at "
+                "quiescence, i.e. blocked in the reservation of the channel slot; then more writes on the same stream, the peer "
+                "reads again, drop), the same end to end over a bounded pipe between two real Mux instances whose receiving "
+                "application does not read (12: small read_buffer_size / read_frame_count, op cap, receiver finally reads to "
+                "EOS) - then N random sessions in rounds of 12: 4 cooperative raw peer, 2 raw peer with unsolicited frames, "
+                "1 flood, 1 reuse, 2 two real Mux instances back to back with tagged byte streams, 1 raw back-pressure, 1 pair "
+                "back-pressure. Each op is followed by run-to-quiescence "
                 "(runtime on_thread_park); corpus/C14 holds two sessions in which several streams of one capability race for "
                 "StreamQueue::push. Non-trivial = distinct op lines whose observation class differs from the modal one",
         "trusted": ["scheduling advice: the generator runs every session once on the real Mux and records, per op, the order in "
@@ -46,17 +68,27 @@ CFG = {
                     "deterministic scheduler follows it. The advice only selects one interleaving among those the LTS "
                     "allows (scheduler_stays_reachable); every observable of the op is still compared",
                     "harness quiescence detection (tokio current-thread runtime, on_thread_park fires only when no task is "
-                    "runnable) and its in-memory transport",
+                    "runnable) and its in-memory transport (with a limit configured: a bounded pipe that turns the writer away "
+                    "between two mux frames, found with a frame parser of its own)",
+                    "cancellation of one call: its context is ctx.with_timeout(1s) on the session's ManualClock, cancelled by "
+                    "advancing the clock 2s once the runtime is quiescent with the call still pending",
+                    "among several senders suspended on the channel slot the model's scheduler serves the one that arrived "
+                    "first (tokio's fair semaphore); the theorems hold for any order",
                     "the Debug output of mux::WriteStream, from which the hook reads (stream kind, stream id)"],
         "assumptions": ["tokio Semaphore: acquire_many(n) completes iff n <= available (single acquirer), permits return on drop",
                         "tokio channels are FIFO and lossless; a dropped sender still lets the receiver drain the queue",
                         "StreamQueue rendez-vous is first-come first-served on both sides (fair semaphore / mutex)",
                         "Notify::notify_one is followed by a Flush command ordered after every frame sent before it",
+                        "bounded(1) channel write_send: send/reserve complete iff the slot is free, recv frees it, a cancelled "
+                        "reserve leaves no trace; ctx.wait returns Canceled only at an await",
                         "the transport delivers the frames of the peer unchanged and in order (C13)",
                         "StreamQueue limiter is Rate::INF"],
         "explanation": "P: invariants of the mux LTS for all reachable states; T: header constants regenerated from header.rs; "
                        "K: every op of every session compared with the model (bytes per stream, EOS, frames emitted per "
-                       "stream, bytes pulled from the transport, run status, stream ids handed out); S: harness monitors "
+                       "stream, bytes pulled from the transport, run status, stream ids handed out, result class ok / canceled / "
+                       "err of every write_all and flush); S: harness monitors "
                        "(tagged bytes, EOS only after CLOSE, ids within capability ranges, open streams <= min, sender grammar, "
-                       "unread data pulled <= buffer limits)",
+                       "unread data pulled <= buffer limits; per sub-stream, at CLOSE on the wire and at end-of-stream on the "
+                       "peer's reader: the bytes = concat over the write_all calls in order of all data for Ok | some prefix for a "
+                       "cancelled call - the first write that cannot be placed is reported as the hole)",
     }
